@@ -20,8 +20,9 @@ FUNCTIONS = ['ast_view.find_fqn', 'ast_view.find_any', 'ast_view.FindResult.__po
              'scoping.NamespaceIds.__add__', 'scoping.NamespaceIds.__iadd__',
              'scoping.namespaceids_t', 'scoping.sum_namespaceids_items']
 ASSUMPTIONS = [
-    'identifiers are opaque to the lookup code (compared with == only), so an alphabet of k letters '
-    'bounds the number of DISTINCT identifiers, not their spelling',
+    'identifiers are meant to be opaque to the lookup code (compared with == only): the alphabet bounds the '
+    'number of DISTINCT identifiers; it contains two identifiers of which one is a string prefix of the '
+    'other (a, ab) so that string-wise comparison of joined names is caught',
     'deep harnesses fork on every int-coded choice (solver-checked) and then run the real lookup on '
     'the resulting concrete declarations',
     "wide identifier harnesses trust CrossHair's str/regex model; the regex itself is also decided for "
@@ -31,7 +32,8 @@ OUTSIDE = ('more than two declarations per model in the lookup harnesses (indepe
            'checked pairwise), namespaces deeper than 3, alphabets above 3 identifiers, identifier '
            'candidates longer than the stated bound in the CrossHair harnesses (the z3 query is unbounded)')
 
-LETTERS = ['a', 'b', 'c']
+# 'a' is a string prefix of 'ab': lookups must compare identifiers, not joined strings
+LETTERS = ['a', 'ab', 'b']
 KINDS = ['components', 'enums', 'externs', 'foreigns', 'interfaces', 'subints', 'systems']
 _ROOT = NamespaceTree()
 
@@ -217,6 +219,12 @@ def _add_case(a: List[str], b: List[str], c: List[str]) -> bool:
     if total.items != a + b + c or x.items != a or y.items != b or z.items != c:
         return False
     if sum_namespaceids_items([]).items != []:
+        return False
+    empty1 = namespaceids_t('')
+    empty1 += y                                   # a client accumulating onto an empty NamespaceIds
+    if namespaceids_t('').items != [] or namespaceids_t([]).items != [] or NamespaceIds().items != []:
+        return False                              # ... must not change what the library hands out next
+    if c and [o.items for o in scope_resolution_order(z, None)] != [c]:
         return False
     w = NamespaceIds(list(a))
     w2 = w
